@@ -8,6 +8,7 @@
 package pipesim
 
 import (
+	"net/url"
 	"bytes"
 	"context"
 	"encoding/base64"
@@ -43,8 +44,22 @@ import (
 // ---------------------------------------------------------------------------
 // the catalogue: every mechanism type, fallback / continue-on-error variants as separate ids
 
-func catalogueYAML() string {
-	return `
+func catalogueYAML() string { return catalogueYAMLFor(false) }
+
+func catalogueYAMLFor(verbose bool) string {
+	head := ""
+	if verbose {
+		head = `
+serve:
+  decision:
+    respond:
+      verbose: true
+  proxy:
+    respond:
+      verbose: true
+`
+	}
+	return head + `
 log:
   level: error
 mechanisms:
@@ -75,6 +90,7 @@ mechanisms:
           url: http://jwks/keys
         jwt_source:
           - header: X-Jwt
+          - query_parameter: jwt_q
         assertions:
           issuers: [ "iss1" ]
         cache_ttl: 0s
@@ -85,6 +101,7 @@ mechanisms:
           url: http://jwks/keys
         jwt_source:
           - header: X-Jwt
+          - query_parameter: jwt_q
         assertions:
           issuers: [ "iss1" ]
         cache_ttl: 0s
@@ -96,6 +113,7 @@ mechanisms:
           url: http://introspect/introspect
         token_source:
           - header: X-Token
+          - query_parameter: tok_q
         assertions:
           issuers: [ "iss1" ]
         cache_ttl: 0s
@@ -106,6 +124,7 @@ mechanisms:
           url: http://introspect/introspect
         token_source:
           - header: X-Token
+          - query_parameter: tok_q
         assertions:
           issuers: [ "iss1" ]
         cache_ttl: 0s
@@ -384,6 +403,19 @@ type worlds struct {
 	// request line / body of the next send (robust-sim only); the zero values mean "GET" without body
 	reqMethod string
 	reqBody   []byte
+	// variants[0]: terse error responses, logging off (robust-sim: debug); variants[1]: verbose error responses and a
+	// trace level logger, so that code only executed for verbose answers or at trace level is part of what is decided
+	variants []worldVariant
+}
+
+type worldVariant struct {
+	decision, proxy *world.World
+	envoy           envoy_auth.AuthorizationClient
+}
+
+func (w *worlds) use(i int) {
+	v := w.variants[i%len(w.variants)]
+	w.decision, w.proxy, w.envoy = v.decision, v.proxy, v.envoy
 }
 
 var (
@@ -417,24 +449,34 @@ func getWorlds() (*worlds, error) {
 		addWWW := func(c *config.Configuration) {
 			c.Prototypes.ErrorHandlers = append(c.Prototypes.ErrorHandlers, config.Mechanism{ID: "www", Type: "www_authenticate", Config: map[string]any{"realm": "sim"}})
 		}
-		if w.decision, err = world.Build(world.Options{ConfigYAML: catalogueYAML(), Mode: config.DecisionMode, Cache: &noop.Cache{}, Mutate: addWWW, Logger: logger}); err != nil {
-			worldErr = err
-			return
+		for vi, verbose := range []bool{false, true} {
+			lg := logger
+			if verbose {
+				tl := zerolog.New(io.Discard).Level(zerolog.TraceLevel)
+				lg = &tl
+			}
+			var v worldVariant
+			if v.decision, err = world.Build(world.Options{ConfigYAML: catalogueYAMLFor(verbose), Mode: config.DecisionMode, Cache: &noop.Cache{}, Mutate: addWWW, Logger: lg}); err != nil {
+				worldErr = err
+				return
+			}
+			if v.proxy, err = world.Build(world.Options{ConfigYAML: catalogueYAMLFor(verbose), Mode: config.ProxyMode, Cache: &noop.Cache{}, Mutate: addWWW, Logger: lg}); err != nil {
+				worldErr = err
+				return
+			}
+			// Envoy gRPC server with its real interceptor chain on an in-memory listener
+			lis := bufconn.Listen(1 << 20)
+			go v.decision.Envoy().Serve(lis)
+			conn, err := grpc.NewClient(fmt.Sprintf("passthrough:///bufnet%d", vi), grpc.WithContextDialer(func(context.Context, string) (net.Conn, error) { return lis.Dial() }),
+				grpc.WithTransportCredentials(insecure.NewCredentials()))
+			if err != nil {
+				worldErr = err
+				return
+			}
+			v.envoy = envoy_auth.NewAuthorizationClient(conn)
+			w.variants = append(w.variants, v)
 		}
-		if w.proxy, err = world.Build(world.Options{ConfigYAML: catalogueYAML(), Mode: config.ProxyMode, Cache: &noop.Cache{}, Mutate: addWWW, Logger: logger}); err != nil {
-			worldErr = err
-			return
-		}
-		// Envoy gRPC server with its real interceptor chain on an in-memory listener
-		lis := bufconn.Listen(1 << 20)
-		go w.decision.Envoy().Serve(lis)
-		conn, err := grpc.NewClient("passthrough:///bufnet", grpc.WithContextDialer(func(context.Context, string) (net.Conn, error) { return lis.Dial() }),
-			grpc.WithTransportCredentials(insecure.NewCredentials()))
-		if err != nil {
-			worldErr = err
-			return
-		}
-		w.envoy = envoy_auth.NewAuthorizationClient(conn)
+		w.use(0)
 		simnet.ServeUpstream("upstream:8080", http.HandlerFunc(func(rw http.ResponseWriter, req *http.Request) {
 			w.mu.Lock()
 			w.upHits++
@@ -494,16 +536,51 @@ func getWorlds() (*worlds, error) {
 
 type creds struct {
 	basic, jwt, token, sess int // 0 none, 1 valid, 2 invalid (rejected by content), 3 malformed (not classified by the property)
+	jwtVia, tokVia         int // 0 header, 1 query parameter, 2 query parameter with a percent-encoded name
+	tokShape               int // rejected tokens: 0 opaque, 1 JWT of a foreign issuer, 2 JWT naming the trusted issuer
+	accept                 int // index into acceptValues
+}
+
+var acceptValues = []string{"", "application/json", "image/png", "foo", "text/html;q=0.1, */*;q=0", "application/pdf"}
+
+// query returns the query string carrying those credentials which do not travel in headers.
+func (c creds) query() string {
+	var parts []string
+	h := c.allHeaders()
+	if c.jwt != 0 && c.jwtVia != 0 {
+		parts = append(parts, []string{"jwt_q", "%6Awt_q"}[c.jwtVia-1]+"="+url.QueryEscape(h["X-Jwt"]))
+	}
+	if c.token != 0 && c.tokVia != 0 {
+		parts = append(parts, []string{"tok_q", "tok%5Fq"}[c.tokVia-1]+"="+url.QueryEscape(h["X-Token"]))
+	}
+	if len(parts) == 0 {
+		return ""
+	}
+	return "?" + strings.Join(parts, "&")
+}
+
+func (c creds) headers() map[string]string {
+	h := c.allHeaders()
+	if c.jwtVia != 0 {
+		delete(h, "X-Jwt")
+	}
+	if c.tokVia != 0 {
+		delete(h, "X-Token")
+	}
+	return h
 }
 
 var credNames = []string{"none", "valid", "invalid", "malformed"}
 
 func (c creds) String() string {
-	return fmt.Sprintf("basic=%s jwt=%s token=%s sess=%s", credNames[c.basic], credNames[c.jwt], credNames[c.token], credNames[c.sess])
+	return fmt.Sprintf("basic=%s jwt=%s/%d token=%s/%d/%d sess=%s accept=%q", credNames[c.basic], credNames[c.jwt], c.jwtVia, credNames[c.token], c.tokVia, c.tokShape, credNames[c.sess], acceptValues[c.accept])
 }
 
-func (c creds) headers() map[string]string {
+func (c creds) allHeaders() map[string]string {
 	h := map[string]string{}
+	if acceptValues[c.accept] != "" {
+		h["Accept"] = acceptValues[c.accept]
+	}
 	switch c.basic {
 	case 1:
 		h["Authorization"] = "Basic " + base64.StdEncoding.EncodeToString([]byte("bob:pw"))
@@ -534,7 +611,14 @@ func (c creds) headers() map[string]string {
 	case 1:
 		h["X-Token"] = "good"
 	case 2:
-		h["X-Token"] = "revoked"
+		switch c.tokShape {
+		case 0:
+			h["X-Token"] = "revoked"
+		case 1:
+			h["X-Token"] = simkeys.SignJWT(otherKey, "k9", map[string]any{"iss": "someone-else", "sub": "mallory", "iat": now - 5, "exp": now + 3600})
+		default:
+			h["X-Token"] = simkeys.SignJWT(otherKey, "k9", map[string]any{"iss": "iss1", "sub": "mallory", "iat": now - 5, "exp": now + 3600})
+		}
 	case 3:
 		h["X-Token"] = "  "
 	}
@@ -773,6 +857,9 @@ func pipeSim(r *simcore.Run) {
 		r.Fail("infra", "build", "%v", err)
 		return
 	}
+	variant := s.Draw(2, "world-variant")
+	w.use(variant)
+	defer w.use(0)
 	entry := simcore.Pick(s, []string{"decision", "proxy", "envoy"}, "entry")
 	p := genPipeline(s, prop == "C04")
 	hasHeaderFin := false
@@ -801,7 +888,8 @@ func pipeSim(r *simcore.Run) {
 		return
 	}
 	defer target.Processor.OnDeleted(rs)
-	r.Logf("entry=%s pipeline: %s", entry, p)
+	r.Logf("entry=%s variant=%d pipeline: %s", entry, variant, p)
+	r.Count(fmt.Sprintf("world-variant-%d", variant), 1)
 
 	faultPct := []int{0, 0, 20, 50}[s.Draw(4, "fault-rate")]
 	kinds := simcore.Subset(s, []simnet.FaultKind{simnet.Status, simnet.Refuse, simnet.Reset, simnet.Timeout, simnet.Delay, simnet.Duplicate, simnet.Panic}, 1, "fault-kinds")
@@ -812,10 +900,21 @@ func pipeSim(r *simcore.Run) {
 		if c.sess == 3 {
 			c.sess = 0
 		}
+		if c.jwt == 1 || c.jwt == 2 {
+			c.jwtVia = []int{0, 0, 1, 2}[s.Draw(4, "jwt-via")]
+		}
+		if c.token == 1 || c.token == 2 {
+			c.tokVia = []int{0, 0, 1, 2}[s.Draw(4, "token-via")]
+		}
+		if c.token == 2 {
+			c.tokShape = s.Draw(3, "token-shape")
+		}
+		c.accept = []int{0, 0, 0, 1, 2, 3, 4, 5}[s.Draw(8, "accept")]
 		path := "/svc/1"
 		if s.Draw(8, "unmatched-path") == 7 {
 			path = "/other"
 		}
+		path += c.query()
 		cur = reqState{pdpAllow: s.Draw(4, "pdp-says") != 0}
 		// one outcome per party and request, decided before heimdall runs
 		faults := map[string]simnet.Fault{}
@@ -865,7 +964,7 @@ func pipeSim(r *simcore.Run) {
 			r.FailProp("C01", "panic-escaped-entry-point", entry, "a panic escaped the %s entry point: %v", entry, panicked)
 			break
 		}
-		matched := path == "/svc/1"
+		matched := strings.HasPrefix(path, "/svc/1")
 		var (
 			allowed, unknown bool
 			why              string
